@@ -787,6 +787,8 @@ do_header_32(struct setup_data *sdp, struct disk_dump_header_32 *dh,
 	for (fidx = 0; fidx < get_num_files(ctx); ++fidx) {
 		struct pfn_file_map *pdmap = &ddp->pdmap[fidx];
 		pdmap->fidx = fidx;
+		pdmap->start_pfn = 0;
+		pdmap->end_pfn = KDUMP_PFN_MAX;
 
 		ret = flatmap_pread(ctx->shared->flatmap, dh, sizeof *dh,
 				    fidx, 0);
@@ -916,6 +918,8 @@ do_header_64(struct setup_data *sdp, struct disk_dump_header_64 *dh,
 	for (fidx = 0; fidx < get_num_files(ctx); ++fidx) {
 		struct pfn_file_map *pdmap = &ddp->pdmap[fidx];
 		pdmap->fidx = fidx;
+		pdmap->start_pfn = 0;
+		pdmap->end_pfn = KDUMP_PFN_MAX;
 
 		ret = flatmap_pread(ctx->shared->flatmap, dh, sizeof *dh,
 				    fidx, 0);
